@@ -90,7 +90,7 @@ def sweep(rng, ncat, far=False):
     return round(rng.uniform(-1.5, ncat + 0.5), 4), "random"
 
 
-def gen_axis(rng, kind, n, ncat):
+def gen_axis(rng, kind, n, ncat, many=False):
     """Returns dict(kind, values|labels, categories(list|None), order)."""
     if kind == "num":
         dtype = rng.choice(["<f8", "<f8", "<f8", "<f4", ">f8", "i1", "u1", "i2", "<i4", "<i8", "u8", "dask_f8"])
@@ -109,6 +109,10 @@ def gen_axis(rng, kind, n, ncat):
     # (1 / 1.5 / 2 ...) so that a region given by integer labels meets float-valued data
     alphabet = rng.choice(["plain", "plain", "prefix", "prefix", "numeric"])
     source = {"plain": LABELS, "prefix": LABELS_PREFIX, "numeric": LABELS_NUMERIC}[alphabet]
+    if many:
+        # scale class: 40-150 categories (k1 / k10 / k100 share prefixes; or floats), every label repeated over 300+ rows
+        alphabet = rng.choice(["prefix", "numeric"])
+        source = ["k%d" % i for i in range(ncat)] if alphabet == "prefix" else [round(0.5 * i, 1) for i in range(ncat)]
     ncat = min(ncat, len(source))
     pool = rng.sample(source, ncat)
     order = rng.choice(["default", "default", "custom_permuted", "custom_with_absent_categories", "custom_missing_label"])
@@ -438,15 +442,21 @@ def store(ax, f):
     ax["stored"] = vals
 
 
-def run_instance(ctx, forced_kind=None):
+def run_instance(ctx, forced_kind=None, large=False):
     rng = ctx.rng
     xk, yk = rng.choice(["num", "cat"]), rng.choice(["num", "cat"])
     rk = forced_kind or rng.choice(ROI_KINDS)
+    if large:
+        xk, rk = "cat", rng.choice(["xrange", "rect", "categorical", "categorical"])
     if rk == "categorical":
         xk = "cat"
     n = rng.randint(1, 16) if rng.random() < 0.96 else rng.randint(100, 180)     # >= 100 rows with duplicates now and then
     ncx, ncy = rng.randint(1, 6), rng.randint(1, 6)
-    ax = gen_axis(rng, xk, n, ncx)
+    if large:
+        n, ncx = rng.randint(300, 500), rng.randint(40, 150)
+        ctx.count("large_categorical_tables")
+        ctx.count("large_categorical_tables:" + rk)
+    ax = gen_axis(rng, xk, n, ncx, many=large)
     ay = gen_axis(rng, yk, n, ncy)
     for a_ in (ax, ay):
         a_["f"] = 1.0
@@ -740,6 +750,8 @@ def run_case(ctx, case):
         # every region kind is forced in turn so that no class depends on luck; the rest is random
         forced = ROI_KINDS[i % len(ROI_KINDS)] if i < 2 * len(ROI_KINDS) else None
         run_instance(ctx, forced)
+    if case[1] % 2 == 0:
+        run_instance(ctx, large=True)
     ctx.count("blocks")
 
 
@@ -771,6 +783,8 @@ def floors(counters, tier):
     for e in ("on_position", "position_pm_1e-6", "half_position", "vertex_on_position"):
         if g("edge_class:" + e, 0) < 100:
             out.append("fewer than 100 region edges of class %s" % e)
+    if g("large_categorical_tables", 0) < 30:
+        out.append("fewer than 30 tables with 40-150 categories and 300+ rows")
     for j in ("none", "uniform", "on_then_off"):
         if g("categorical_axis_jitter:" + j, 0) < 200:
             out.append("fewer than 200 categorical axes with jitter %s" % j)
